@@ -12,6 +12,10 @@ indentation alone and compared with the tree of the HTML output for the same abb
 Besides the small decorations, three clauses widen two dimensions: the number of classes of one element
 (0..20 and a few large counts) and the kind of line break between text lines (LF, CR LF, bare CR and every
 mixture): a text line ends at any of the three (text_lines()).
+Four more clauses add two classes of abbreviations: attribute lists with *implied* attributes `[!k]`
+(written_attributes(): without a value they are no attribute of the element, so the attribute list skips them
+and vanishes when nothing is left) and *self-closing elements that have children* (`p/>b`, `br>span`: the
+subtree is part of the tree like any other; loose check).
 """
 import random
 import re
@@ -65,7 +69,24 @@ def element_shape(forest):
             for nd in forest if nd['name'] is not None]
 
 
+def written_attributes(attrs):
+    """the attributes (other than id / class) the element HAS, from the attributes the abbreviation wrote:
+    `[k=v]` is the attribute k="v", `[k]` (no value) the attribute k=""; an *implied* attribute `[!k]` only
+    names an attribute the element gets once a value is given for it: without a value it is not an attribute
+    of the element (the HTML output for the same abbreviation has none), with a value (`[!k=v]`) it is k="v"."""
+    out = []
+    for k, v in attrs:
+        if k.startswith('!'):
+            if v is None:
+                continue
+            k = k[1:]
+        out.append([k, '' if v is None else v])
+    return out
+
+
 def attribute_list(attrs, syntax):
+    """the syntax's attribute list of the attributes the element has; nothing at all when it has none"""
+    attrs = written_attributes(attrs)
     if not attrs:
         return ''
     pairs = ['%s="%s"' % (k, v) for k, v in attrs]
@@ -198,6 +219,34 @@ def check_indent(ast, indent):
             return '%s: tree recovered from indentation differs from the tree of the HTML output %r: %s; output %r' % (
                 where, html, G.first_difference(html_tree, tree) or 'ids differ', out)
     return None
+
+
+def check_indent_attrs(ast, indent):
+    """check_indent() for elements that carry implied attributes `[!k]` / attributes without value `[k]`.
+    First the reading of the oracle is confirmed on the HTML output of the same abbreviation (the reference
+    of the statement's second sentence): every element there must carry exactly written_attributes() of
+    what the abbreviation wrote -- in particular no implied attribute that got no value."""
+    from emmet import expand
+    abbr = G.print_abbr(ast)
+    html = expand(abbr, {'syntax': 'html', 'options': {'output.format': False}})
+    got = []
+
+    def flat_html(fr):
+        for nd in fr:
+            got.append([nd[0], [[k, v] for k, v in nd[1] if k not in ('id', 'class')]])
+            flat_html(nd[3])
+    flat_html(G.parse_markup(html, void_without_slash=True))
+    exp = []
+
+    def flat(fr):
+        for nd in fr:
+            exp.append([nd['name'], written_attributes(nd['attrs'])])
+            flat(nd['children'])
+    flat(denote_full(ast))
+    if got != exp:
+        return 'expand(%r, syntax=html): the elements of the HTML reference carry the attributes %r, the abbreviation gives them %r ' \
+               '(a C03 matter; the comparison of C15 is void); output %r' % (abbr, got, exp, html)
+    return check_indent(ast, indent)
 
 
 def check_indent_loose(ast, indent, strict_heads):
@@ -572,6 +621,228 @@ def random_wide_cases(seed, count):
         yield (ast, rng.choice(INDENTS + [' ', '\t\t', '   ']))
 
 
+# ----------------------------------------------------------------------------- implied attributes
+def attr_forms(j):
+    """attribute lists with implied attributes `!k` (value None: no value given): alone, first, in the
+    middle, last, two of them in every arrangement around an ordinary attribute, with a value of their own,
+    next to an attribute without value `[title]`; no name occurs twice"""
+    t, v = 't%d' % j, 'v%d' % j
+    L, D = ['!lang', None], ['!dir', None]
+    return [
+        [L],
+        [['title', t], L],
+        [L, ['title', t]],
+        [['title', t], L, ['data-n', v]],
+        [['title', t], ['data-n', v], L],
+        [L, D],
+        [['title', t], L, D],
+        [L, ['title', t], D],
+        [L, D, ['title', t]],
+        [['!lang', 'en']],
+        [['title', t], ['!lang', 'en'], D],
+        [['!data-x', None], ['!lang', 'en']],
+        [['title', None], L],
+        [L, ['title', None], ['data-n', v]],
+        [['title', None]],
+    ]
+
+
+N_ATTR_FORMS = 15
+PRIMARY_FORMS = [{}, {'cls': ['c1']}, {'id': 'i1'}, {'id': 'i1', 'cls': ['c1', 'k', 'm-1']}]
+TEXT_FORMS = [None, 'T1 w', 'La1\nLb1']
+
+
+def implied_cases():
+    """every attribute form x 4 id / class forms x 4 name kinds x 5 positions; the text of the element
+    (none / one line / two lines) rotates so that every (attribute form, id / class form) pair meets all
+    three; the indent string rotates with the case index"""
+    E = G.E
+    idx = 0
+    for f in range(N_ATTR_FORMS):
+        for pi, primary in enumerate(PRIMARY_FORMS):
+            for ni, name in enumerate(['p', 'div', 'span', None]):
+                for pos in range(5):
+                    head = dict(primary, attrs=attr_forms(1)[f])
+                    text = TEXT_FORMS[(f + pi + ni + pos) % 3]
+                    if text is not None:
+                        head['text'] = text
+                    if name:
+                        head['name'] = name
+                    x = ['e', head, None, []]
+                    inner = {'name': 'b', 'attrs': attr_forms(2)[(f + pos + 3) % N_ATTR_FORMS], 'text': 'B'}
+                    if pos == 0:
+                        ast = [x]
+                    elif pos == 1:
+                        ast = [E('ul', [E('li'), x, E('li')])]
+                    elif pos == 2:
+                        ast = [E('section', [E('p', [['e', dict(head), None, [['e', inner, None, []], E('i')]]])]), E('div')]
+                    elif pos == 3:
+                        ast = [G.G([x, E('p')], 2)]
+                    else:
+                        ast = [['e', dict(head), 2, [['e', inner, None, [E('em')]]]], x]
+                    idx += 1
+                    yield (ast, INDENTS[idx % len(INDENTS)])
+
+
+# ----------------------------------------------------------------------------- self-closing elements with children
+# `name/` and the built-in self-closing snippets only say "no closing tag when the element is empty"; the
+# element is an element of the tree like any other and so are the elements written below it.
+VOID_PARENTS = ['br', 'hr']         # built-in self-closing snippets that add no attribute of their own
+
+PLAIN_DECORATIONS = [0, 1, 2, 3, 4, 5, 14, 15, 16, 17, 6, 9, 7]     # the last three carry text
+
+
+def closing_head(kind, k, j):
+    """head of a self-closing element: kind 0 `name.../` (name without snippet), 1 `div.../`, 2 implicit `.../`,
+    3 `br...` / `hr...` (self-closing by their snippet), 4 `br.../` / `hr.../`"""
+    head = dict(decoration(PLAIN_DECORATIONS[k % len(PLAIN_DECORATIONS)], j))
+    if kind == 0:
+        head['name'] = ['p', 'section', 'span', 'li'][(j + k) % 4]
+    elif kind == 1:
+        head['name'] = 'div'
+    elif kind == 2:
+        if not G.has_attributes(head):
+            head['cls'] = ['c%d' % j]
+    else:
+        head['name'] = VOID_PARENTS[(j + k) % 2]
+    if kind != 3:
+        head['close'] = True
+    return head
+
+
+def closing_parent_cases():
+    """5 kinds of self-closing element x 13 decorations (10 without, 3 with text of its own) x 8 families of
+    children x 4 positions in a tree; indent rotating"""
+    E = G.E
+    idx = 0
+    for kind in range(5):
+        for k in range(len(PLAIN_DECORATIONS)):
+            for fam in range(8):
+                def X(children, rep=None, j=1):
+                    return ['e', closing_head(kind, k, j), rep, children]
+                if fam == 0:
+                    x = X([E('span')])
+                elif fam == 1:
+                    x = X([E('b', text='B'), E('i'), E('em', cls=['e'])])
+                elif fam == 2:
+                    x = X([E('ul', [E('li', [E('u')]), E('li')]), E('p')])
+                elif fam == 3:
+                    x = X([E(None, cls=['n1']), E(None, id='n2', children=[E('i')])])     # implicit children
+                elif fam == 4:
+                    x = X([X([X([E('b')], j=3), E('i')], j=2), E('em')])                  # nested self-closing parents
+                elif fam == 5:
+                    x = X([E('span', [E('b')])], rep=2)
+                elif fam == 6:
+                    x = X([G.G([E('b'), E('i', text='I')], 2), E('hr')])
+                else:
+                    x = X([E('br'), E('span', close=True), E('em', [E('hr', [E('b')])])])
+                for pos in range(4):
+                    if pos == 0:
+                        ast = [x]
+                    elif pos == 1:
+                        ast = [E('ul', [E('li'), x, E('li')])]
+                    elif pos == 2:
+                        ast = [E('section', [E('p', [x]), E('h2')]), E('div')]        # a climb follows the subtree
+                    else:
+                        ast = [G.G([x, E('p')], 2), E('footer')]
+                    idx += 1
+                    yield (ast, INDENTS[idx % len(INDENTS)], True)
+
+
+def decorate_closing(skel, reps, offset):
+    """like decorate_loose(), but an element WITH children is, in rotation (5 rotations), a self-closing one:
+    0 `name.../` with a decoration (its own text kept), 1 `br` / `hr`, 2 an implicit `.cJ.../`; leaves are, in
+    rotation, `name.../` (no text), `br` / `hr`, a text-only node, an implicit element, or ordinary"""
+    counter = [0, 0]
+
+    def items(sk):
+        out = []
+        for kind, ch in sk:
+            idx = counter[0]
+            counter[0] += 1
+            rep = reps.get(idx)
+            if kind == 'g':
+                out.append(['g', rep, items(ch)])
+                continue
+            j = counter[1]
+            counter[1] += 1
+            sel = (2 * j + offset) % 5
+            name = NAMES[(j + offset) % len(NAMES)]
+            if sel == 0:
+                head = dict(decoration(offset + j, j), name=name, close=True)
+                if not ch:
+                    head.pop('text', None)
+            elif sel == 1:
+                head = {'name': VOID_PARENTS[(j + offset) % 2]}
+            elif sel == 2 and ch:
+                head = dict(decoration(offset + j, j), close=True)
+                if not G.has_attributes(head):
+                    head['cls'] = ['c%d' % j]
+            elif sel == 2:
+                head = {'text': 'Tx%d' % j}
+            elif sel == 3:
+                head = dict(decoration(3 * j + offset, j))
+                if not G.has_attributes(head):
+                    head['cls'] = ['c%d' % j]
+            else:
+                head = dict(decoration(3 * j + offset, j), name=name)
+            out.append(['e', head, rep, items(ch)])
+        return out
+    return items(skel)
+
+
+def closing_skeleton_cases(plan):
+    idx = 0
+    for (n, gmax, rmax), nvar in plan:
+        for g in range(0, gmax + 1):
+            for skel in G.skeletons(n, g):
+                m = G.count_nodes(skel)
+                for reps in G.rep_assignments(m, rmax, (2,)):
+                    for v in range(nvar):
+                        idx += 1
+                        yield (decorate_closing(skel, reps, idx), INDENTS[idx % len(INDENTS)], True)
+
+
+def random_closing_implied_cases(seed, count):
+    """random ASTs of 4..20 elements; every element: a random decoration; with probability 0.3 its attributes
+    are replaced by a random form with implied attributes; with probability 0.3 it is self-closing (`name.../`,
+    or br / hr) whether or not it has children; leaves are text-only nodes with probability 0.1"""
+    rng = random.Random(seed * 104729 + 154)
+    for _ in range(count):
+        ast = G.random_ast(rng, rng.randint(4, 20), names=NAMES, implicit_p=0.0, id_p=0.0, max_mult=6)
+        j = [0]
+
+        def deco(items):
+            for it in items:
+                if it[0] == 'g':
+                    deco(it[2])
+                    continue
+                j[0] += 1
+                if not it[3] and rng.random() < 0.1:
+                    it[1] = {'text': 'Tx%d' % j[0]}
+                    continue
+                head = dict(decoration(rng.randrange(N_DECORATIONS), j[0]))
+                if rng.random() < 0.3:
+                    head['attrs'] = attr_forms(j[0])[rng.randrange(N_ATTR_FORMS)]
+                r = rng.random()
+                if r < 0.1:
+                    head['name'] = rng.choice(VOID_PARENTS)
+                    if rng.random() < 0.3:
+                        head['close'] = True
+                elif r < 0.75:
+                    head['name'] = rng.choice(NAMES)
+                elif not G.has_attributes(head):
+                    head['id'] = 'i%d' % j[0]
+                if 0.1 <= r and rng.random() < 0.25:
+                    head['close'] = True
+                if head.get('close') and not it[3]:
+                    head.pop('text', None)      # (a self-closing leaf with text of its own is not generated)
+                it[1] = head
+                deco(it[3])
+        deco(ast)
+        yield (ast, rng.choice(INDENTS + [' ', '\t\t', '   ']), True)
+
+
 def run_sorted(c, fname, cases, chunk):
     """run_parallel with a deterministic report: the pool delivers violations in arrival order and the
     default cap is 50, so collect all, sort by input (shortest first), report the first 50"""
@@ -587,13 +858,17 @@ def run(tier, seed):
     if tier == 'quick':
         plan = [((1, 2, 2), 4), ((2, 2, 2), 4), ((3, 2, 2), 2), ((4, 2, 1), 1), ((5, 1, 1), 1)]
         loose = [((1, 1, 1), 7), ((2, 1, 1), 7), ((3, 1, 1), 7), ((4, 1, 1), 2), ((5, 0, 1), 1)]
+        closing = [((2, 1, 1), 5), ((3, 1, 1), 5), ((4, 1, 1), 1), ((5, 0, 1), 1)]
         nrand = 800
         nwide = 300
+        nclosing = 300
     else:
         plan = [((1, 2, 2), 4), ((2, 2, 2), 4), ((3, 2, 2), 4), ((4, 2, 2), 2), ((5, 2, 2), 1), ((6, 1, 1), 1)]
         loose = [((1, 2, 2), 7), ((2, 2, 2), 7), ((3, 2, 2), 7), ((4, 2, 2), 7), ((5, 1, 1), 2), ((6, 0, 1), 1)]
+        closing = [((2, 2, 2), 5), ((3, 2, 2), 5), ((4, 2, 2), 5), ((5, 1, 1), 2), ((6, 0, 1), 1)]
         nrand = 30000
         nwide = 10000
+        nclosing = 10000
     out = []
     c = Clause('lines-skeleton-exhaustive', 'B',
                'every operator skeleton of the C01 generator (groups, ^ climbs, *2/*3), elements decorated with id / classes / '
@@ -657,6 +932,46 @@ def run(tier, seed):
                'LF / CR LF / CR separators; 7 indent strings',
                '%d cases, seed %d' % (nwide, seed), 'a case is (AST, indent string)', exhaustive=False)
     run_sorted(c, 'check_indent', random_wide_cases(seed, nwide), 25)
+    out.append(c.done())
+
+    c = Clause('implied-attributes', 'B',
+               '%d attribute lists with implied attributes `!k` (alone, first, middle, last, two of them around an ordinary '
+               'attribute, with a value `!k=v`, next to an attribute without value `[k]`) x 4 id / class forms (none, .c1, #i1, '
+               '#i1.c1.k.m-1) x 4 name kinds (p, div, span, implicit) x 5 positions (alone, middle child of ul, depth 2 with children '
+               'that carry such lists too, in a group repeated twice, repeated *2 with a subtree + copy); no / one-line / two-line '
+               'text rotating; haml, pug, slim; indent rotating over %r' % (N_ATTR_FORMS, INDENTS),
+               'complete product as stated', 'a case is (AST, indent string); the attribute list of a line holds the attributes the '
+               'element has: an implied attribute without a value is none of them (checked on the HTML output too), and an element '
+               'without attributes has no attribute list at all', exhaustive=True)
+    run_sorted(c, 'check_indent_attrs', implied_cases(), 60)
+    out.append(c.done())
+
+    c = Clause('self-closing-parents', 'B',
+               '5 kinds of self-closing element (name/, div/, implicit ./, br|hr, br/|hr/) x 13 decorations (bare, class, id, '
+               'id+classes, attributes, ..., 3 with text of its own) x 8 families of children (one; three; a subtree; implicit ones; '
+               'self-closing parents nested 3 deep; repeated *2; a repeated group + hr; self-closing leaves and a deeper hr>b) x 4 '
+               'positions (alone, middle child of ul, depth 2 followed by a climb, in a group repeated twice); haml, pug, slim; '
+               'indent rotating over %r' % INDENTS,
+               'complete product as stated', 'a case is (AST, indent string, strict_heads=True); every element -- also those below a '
+               'self-closing element -- has, in document order, a line of its own indented by its depth (loose check: the `/` mark '
+               'itself is not constrained)', exhaustive=True)
+    run_sorted(c, 'check_indent_loose', closing_parent_cases(), 100)
+    out.append(c.done())
+
+    c = Clause('self-closing-parents-skeletons', 'B',
+               'operator skeletons in which the elements with children are, in rotation, self-closing (name.../ decorated, br / hr, '
+               'implicit .cJ/) or ordinary, and the leaves self-closing, text-only, implicit or ordinary; haml, pug, slim; indent '
+               'rotating over %r' % INDENTS,
+               ' | '.join('%d elements, <=%d groups, <=%d repeaters (*2): %d rotation(s)' % (s + (v,)) for s, v in closing),
+               'a case is (AST, indent string, strict_heads=True)', exhaustive=True)
+    run_sorted(c, 'check_indent_loose', closing_skeleton_cases(closing), 200)
+    out.append(c.done())
+
+    c = Clause('random-self-closing-implied', 'B',
+               'seeded random ASTs of 4..20 elements; every element a random decoration, implied-attribute lists (30 %), self-closing '
+               '(name/ 25 %, br / hr 10 %) with or without children, text-only leaves (10 %); 7 indent strings',
+               '%d cases, seed %d' % (nclosing, seed), 'a case is (AST, indent string, strict_heads=True)', exhaustive=False)
+    run_sorted(c, 'check_indent_loose', random_closing_implied_cases(seed, nclosing), 25)
     out.append(c.done())
 
     c = Clause('random-large', 'B', 'seeded random ASTs of 5..30 elements with random decorations and 7 indent strings',
